@@ -47,8 +47,8 @@ def read_layers(run):
     # whole file; the environment may drop the 2nd and the 9th chunk only (keeps the state graph small)
     big = dict(name="big", entries=[ent(["big"], "reg", file=1, size=500)], chunk=50, minchunk=0, comp="gzip", prio=[], cache="mem",
                via="node", workers=1)
-    bounds = {"Offs": "{0, 75, 449, 500}" if not thorough else "{0, 49, 50, 75, 250, 449, 450, 499, 500}", "EvictOffs": "{50, 400}"}
-    big["gen"] = dict(bounds, Lens="{1, 60, 500}" if not thorough else "{1, 51, 120, 500}")
+    bounds = {"Offs": "{0, 75, 449, 500}" if not thorough else "{0, 49, 50, 75, 449, 450, 500}", "EvictOffs": "{50, 400}"}
+    big["gen"] = dict(bounds, Lens="{1, 60, 500}" if not thorough else "{1, 51, 500}")
     big["mc"] = dict(bounds, Lens="{1, 50, 51, 60, 120, 500}")
     return res + [big]
 
@@ -152,8 +152,8 @@ def report_monitor(run, module, viol, mr, events, what):
 def validate(run, tmod, tcfg, mmod, mcfg, path, what, nontrivial):
     events = read_ndjson(path)
     traces = split_traces(events)
-    viol, mr = run.tlc_monitor(mmod, mcfg, path, timeout=900)
-    res = run.tlc_trace(tmod, tcfg, path, timeout=900) if tmod else None
+    viol, mr = run.tlc_monitor(mmod, mcfg, path, timeout=2400)
+    res = run.tlc_trace(tmod, tcfg, path, timeout=2400) if tmod else None
     log("[trace] %-10s %d traces %d events: conformance %s, monitor %s" % (
         what, len(traces), len(events),
         "-" if res is None else "accepted" if res["accepted"] else "REJECTED at line %s" % res["consumed"], viol or "ok"))
